@@ -546,6 +546,79 @@ func harnessA(c *ev.Check, k, threads, picksEach, unready, bound, shards int) xa
 	return xa.Harness{Name: name, Bound: bound, Shards: shards, Horizon: 20000, Body: body, Check: check}
 }
 
+// harnessSync: picks racing an update that ADDS a server (the policy has no subset, or its subset grows with the
+// list). Whatever the picks meet inside the non-atomic update, once the update is complete and the new endpoint is
+// ready the following picks are shared between all ready endpoints - a new server must not be left out.
+func harnessSync(c *ev.Check, subset bool, picks, bound, shards int) xa.Harness {
+	name := fmt.Sprintf("picks-vs-server-added-subset%v-p%d", subset, picks)
+	object := func(n int) *proxyv1alpha1.UpstreamCluster {
+		var servers []proxyv1alpha1.UpstreamClusterServer
+		var names []string
+		for i := 0; i < n; i++ {
+			servers = append(servers, proxyv1alpha1.UpstreamClusterServer{Endpoint: epName(i)})
+			names = append(names, epName(i))
+		}
+		pol := proxyv1alpha1.DispatchPolicy{Rules: []proxyv1alpha1.DispatchPolicyRule{{Verbs: []string{"*"}, APIGroups: []string{"*"}, Resources: []string{"*"}, NonResourceURLs: []string{"*"}}}}
+		if subset {
+			pol.UpstreamSubset = names
+		}
+		return kit.Upstream("c14", servers, []proxyv1alpha1.DispatchPolicy{pol})
+	}
+	type obsS struct {
+		during []int
+		after  [2]int
+		errs   []string
+	}
+	body := func() interface{} {
+		var ci *clusters.ClusterInfo
+		vsched.Passthrough(func() { ci = mkCluster(1, subset) })
+		o := &obsS{}
+		vsched.GoNamed("update", func() {
+			if err := ci.Sync(object(2)); err != nil {
+				o.errs = append(o.errs, "Sync: "+err.Error())
+			}
+		})
+		vsched.GoNamed("picker", func() {
+			for i := 0; i < picks; i++ {
+				got, err := pick(ci)
+				if err != nil {
+					o.errs = append(o.errs, "pick during the update: "+err.Error())
+					continue
+				}
+				o.during = append(o.during, got)
+			}
+		})
+		vsched.JoinChildren() // (the probe loop goroutines of the added endpoint are daemons)
+		if e, ok := ci.Endpoints.Load(epName(1)); ok {
+			e.UpdateStatus(true, "", "")
+		} else {
+			o.errs = append(o.errs, "the added server is unknown after the update")
+		}
+		for i := 0; i < 4; i++ {
+			got, err := pick(ci)
+			if err != nil || got < 0 || got > 1 {
+				o.errs = append(o.errs, fmt.Sprintf("pick after the update: %v %v", got, err))
+				continue
+			}
+			o.after[got]++
+		}
+		vsched.Passthrough(func() { ci.Stop() })
+		return o
+	}
+	check := func(x *vsched.Exec) error {
+		o := x.Obs.(*obsS)
+		c.Outcome("pick_distributions", name+fmt.Sprint(o.during, o.after))
+		if len(o.errs) > 0 {
+			return fmt.Errorf("pick-or-update-failed: %s", o.errs[0])
+		}
+		if o.after != [2]int{2, 2} {
+			return fmt.Errorf("added-server-left-out: a server was added while %d picks ran (they got %v); once the update was complete and both endpoints were ready, 4 picks were distributed %v (each must get 2)", picks, o.during, o.after)
+		}
+		return nil
+	}
+	return xa.Harness{Name: name, Bound: bound, Shards: shards, Horizon: 20000, Body: body, Check: check}
+}
+
 func allHarnesses(c *ev.Check, bound int) []xa.Harness {
 	sh := 1
 	if bound >= 2 {
@@ -556,6 +629,13 @@ func allHarnesses(c *ev.Check, bound int) []xa.Harness {
 		harnessA(c, 3, 2, 2, 0, bound, sh),
 		harnessA(c, 3, 3, 1, 0, bound, sh),
 		harnessA(c, 3, 2, 2, 1, bound, sh),
+	}
+	// (Sync is long: hundreds of schedule points. Preemption bound 1 in the quick tier - one switch into the update
+	// and the free switch back -, bound 2 with one pick in the thorough tier)
+	if bound <= 1 {
+		hs = append(hs, harnessSync(c, false, 1, bound, 1), harnessSync(c, true, 1, bound, 1), harnessSync(c, false, 2, bound, 1))
+	} else if bound == 2 && (c.Thorough() || c.ReplayFile() != "") {
+		hs = append(hs, harnessSync(c, false, 1, bound, 16), harnessSync(c, true, 1, bound, 16))
 	}
 	if c.Thorough() || c.ReplayFile() != "" {
 		hs = append(hs,
